@@ -1258,3 +1258,65 @@ func storesField(f *ssa.Function, k int, d int) bool {
 	}
 	return false
 }
+
+func init() {
+	register("CUR6", "a cursor method that steps the chunk position (pos++, pos--) and then reads the key field again — in the condition of the loop that does the stepping, or later — reloads the cursor in between: the key field is only refreshed by the reload, so a loop that steps without reloading compares the key of the chunk it started from for ever and runs off the end of the table", ruleCUR6)
+}
+
+func ruleCUR6(p *Prog) *RuleResult {
+	res := newResult("CUR6", ruleDoc["CUR6"], 4)
+	for _, ct := range p.cursorTypes() {
+		for _, f := range ct.methods {
+			if f == ct.reload {
+				continue
+			}
+			recv := ssa.Value(f.Params[0])
+			var steps, keyLoads []ssa.Instruction
+			kills := map[ssa.Instruction]bool{}
+			for _, b := range f.Blocks {
+				for _, ins := range b.Instrs {
+					if ct.isKill(f, ins) {
+						kills[ins] = true
+					}
+					switch x := ins.(type) {
+					case *ssa.Store:
+						fa, ok := x.Addr.(*ssa.FieldAddr)
+						if !ok || fa.X != recv || ct.keys[fa.Field] || ct.inner[fa.Field] {
+							continue
+						}
+						bo, ok := x.Val.(*ssa.BinOp)
+						if !ok || (bo.Op != token.ADD && bo.Op != token.SUB) {
+							continue
+						}
+						if ld, ok := bo.X.(*ssa.UnOp); ok && ld.Op == token.MUL {
+							if fa2, ok := ld.X.(*ssa.FieldAddr); ok && fa2.X == recv && fa2.Field == fa.Field {
+								if _, isC := constIntVal(bo.Y); isC {
+									steps = append(steps, x)
+								}
+							}
+						}
+					case *ssa.UnOp:
+						if ct.keyLoad(f, x) {
+							keyLoads = append(keyLoads, x)
+						}
+					}
+				}
+			}
+			for i, st := range steps {
+				cn := fmt.Sprintf("%s|position stepped#%d", fname(f), i+1)
+				var bad ssa.Instruction
+				for _, kl := range keyLoads {
+					if reachAvoid(st, kl, kills) {
+						bad = kl
+					}
+				}
+				if bad != nil {
+					res.bad(cn, p.ipos(st), fmt.Sprintf("after the position is stepped here the key field is read again at %s without a reload of the cursor on the way", p.ipos(bad)))
+				} else {
+					res.ok(cn, p.ipos(st), fmt.Sprintf("every later read of a key field (%d in the method) lies behind a reload", len(keyLoads)))
+				}
+			}
+		}
+	}
+	return res
+}
